@@ -173,7 +173,7 @@ Proof.
   - (* Nullable *)
     assert (Hc' : c16_ty t = true).
     { unfold c16_ty in *. cbn [wf_ty tuples_ok] in Hc. apply andb_true_iff in Hc as [H1 H2].
-      apply andb_true_iff in H1 as [H1 _]. now rewrite H1, H2. }
+      now rewrite H1, H2. }
     apply nocrash_bind; [apply nocrash_dec_fix; [lia|assumption]|apply keeps_dec_fix|]. intros nulls.
     apply nocrash_bind; [now apply IH|apply keeps_dec|intros; apply nocrash_ret].
   - (* LowCardinality *)
